@@ -32,6 +32,8 @@ THEOREMS = [
     "lru_sorted_by_recency",
     "lru_evicts_least_recent",
     "lru_no_spurious_eviction",
+    "lru_set_then_get_hits",
+    "lru_has_is_pure_and_clear_empties",
     "cachedTemplate_is_lru_history",
     "cached_transparent",
     "cached_identity_stable",
